@@ -8,6 +8,7 @@
 import PygModel.Eq
 import PygProofs.Lemmas.EqLemmas
 import PygProofs.Lemmas.EqDictLemmas
+import PygProofs.Lemmas.EqSame
 
 namespace Pyg.Props.C14
 open Pyg Pyg.EqM
@@ -17,10 +18,10 @@ the implementation side of "never raises" is observed by the correspondence chec
 theorem eq_bool (a b : EVal) : eq a b = true ∨ eq a b = false := by
   cases eq a b <;> simp
 
-/-- reflexivity, NaN at any depth included.  The only hypothesis: the index / column *labels* of
-pandas objects are NaN-free (`pd.Index == pd.Index` is not NaN-aware; cells may hold any NaN). -/
-theorem eq_refl (a : EVal) (h : a.labelsOk = true) : eq a a = true :=
-  eqN_refl _ (norm_labelsOk a h)
+/-- reflexivity, NaN at any depth included - in cells and (since fix C14-F4: axis labels are compared
+one by one with `eq`) also in the index / column labels of pandas objects.  No hypothesis. -/
+theorem eq_refl (a : EVal) : eq a a = true :=
+  eqN_refl _
 
 theorem eq_symm (a b : EVal) : eq a b = eq b a := eqN_symm _ _
 
@@ -67,9 +68,9 @@ theorem eq_frame (i j c d : List Cell) (xs ys : List EVal) :
     eq (.frame i c xs) (.frame j d ys) = (idxEq i j && idxEq c d && all2 eq xs ys) := by
   simp only [eq, EVal.norm, eqN, eqArr_normList]; rfl
 
-/-- matching labels: same number of labels, pairwise `==` -/
+/-- matching labels: same number of labels, pairwise `eq` (`==`, or both NaN) -/
 theorem idxEq_spec (i j : List Cell) (h : idxEq i j = true) :
-    i.length = j.length ∧ ∀ k (h1 : k < i.length) (h2 : k < j.length), Cell.pyEq i[k] j[k] = true := by
+    i.length = j.length ∧ ∀ k (h1 : k < i.length) (h2 : k < j.length), cellEq i[k] j[k] = true := by
   induction i generalizing j with
   | nil => cases j <;> simp_all [idxEq, all2]
   | cons x xs ih =>
@@ -107,6 +108,33 @@ theorem eq_dict_class (c d : Nat) (a b : List (String × EVal)) (h : eq (.dict c
     · rintro ⟨x, hx, rfl⟩; exact ⟨x, (mem_sortK x _).2 hx, rfl⟩
   rw [← hm a, ← hm b, hk]
 
+
+/-- dicts are equal exactly if they are the same mapping up to `eq`: same exact class, same size, and every item of the left is
+found under its key on the right with an `eq` value - for ALL values (NaN, arrays, pandas objects, subclasses inside), whatever
+the insertion orders.  (`eq_dict_class` is the class / size / key-set part; this adds the values.) -/
+theorem eq_dict_iff (c d : Nat) (a b : List (String × EVal))
+    (ha : (a.map (·.1)).Nodup) (hb : (b.map (·.1)).Nodup) :
+    eq (.dict c a) (.dict d b) = true ↔
+      c = d ∧ a.length = b.length ∧ ∀ x ∈ a, ∃ w, EVal.lookup x.1 b = some w ∧ eq x.2 w = true :=
+  eq_dict_iff_aux c d a b ha hb
+
+-- see the non-vacuity section for an instance
+-- example : eq (.dict 1 [("b", nan), ("a", .arr [2] [i 1, nan])]) (.dict 1 [("a", .arr [2] [f 4, nan]), ("b", nan)]) = true := by decide
+
+
+/-- **independent specification**: `eq` decides the relation `Same` (PygProofs/Lemmas/EqSame.lean), which is given by rules that
+never mention `eq`, normalisation or sorting: scalars - NaN with NaN, otherwise python `==`; list / tuple / array / Series /
+DataFrame - same constructor, same shape, same axis labels (NaN label with NaN label), the same thing at every position; dicts -
+same exact class, same size and, as MAPPINGS, under every key of the left the right holds the same thing.  For all values of the
+universe (NaN, arrays, pandas objects, dict subclasses at any depth) whose dicts have distinct keys, as every python dict has.
+This extends `eq_agrees_pyeq` from NaN-free plain values to everything; a model that e.g. compared dict items in insertion
+order, ignored a shape, or let a NaN label differ from itself could not satisfy it. -/
+theorem eq_iff_same (a b : EVal) (ka : a.keysOk = true) (kb : b.keysOk = true) : eq a b = true ↔ Same a b :=
+  eq_iff_same_aux _ a b (Nat.le_refl _) ka kb
+
+/-- axis labels match iff there are equally many and the labels at every position are the same (`==`, or both NaN) -/
+theorem idxEq_iff (i j : List Cell) : idxEq i j = true ↔ LabelsSame i j := idxEq_iff_same i j
+
 /-- on NaN-free plain values `eq` agrees with Python `==` (`pyEqV`): for ALL values built from None,
 bools, ints, floats other than NaN, strings, datetimes, dates and arbitrarily nested lists, tuples
 and plain dicts (`EVal.plain`), every dict having distinct (string) keys as every python dict has
@@ -129,9 +157,9 @@ theorem eq_agrees_pyeq_needs_keysOk :
 /-! ### in_ -/
 
 /-- membership built on `eq`: an element of the sequence is found … -/
-theorem in_of_mem (x : EVal) (s : List EVal) (hx : x.labelsOk = true) (h : x ∈ s) : in_ x s = true := by
+theorem in_of_mem (x : EVal) (s : List EVal) (h : x ∈ s) : in_ x s = true := by
   simp only [in_, List.any_eq_true]
-  exact ⟨x, h, eq_refl x hx⟩
+  exact ⟨x, h, eq_refl x⟩
 
 /-- … `in_` is exactly "some element is `eq`" and respects `eq` on the probe -/
 theorem in_iff (x : EVal) (s : List EVal) : in_ x s = true ↔ ∃ y ∈ s, eq x y = true := by
@@ -152,13 +180,19 @@ private def f (q : Int) : EVal := .cell (.flt q)
 -- NaN at depth, int == float, dict order
 example : eq (.list [i 1, .tuple [nan, .dict 0 [("b", nan), ("a", f 8)]]])
     (.list [f 4, .tuple [nan, .dict 0 [("a", i 2), ("b", nan)]]]) = true := by decide
--- the hypotheses of eq_refl / eq_trans / eq_type_strict are satisfiable on non-trivial values
-example : (EVal.frame [.int 0, .int 1] [.str "a"] [nan, i 2]).labelsOk = true := by decide
+-- the hypotheses of eq_trans / eq_type_strict are satisfiable on non-trivial values
 example : eq (.arr [2] [i 1, nan]) (.arr [2] [f 4, nan]) = true ∧
     eq (.arr [2] [f 4, nan]) (.arr [2] [.cell (.bool true), nan]) = true := by decide
 example : (EVal.list [i 1]).kind ≠ (EVal.tuple [i 1]).kind := by decide
 example : (EVal.dict 0 [("a", i 1)]).kind ≠ (EVal.dict 1 [("a", i 1)]).kind := by decide
 example : (i 1).kind ≠ (EVal.arr [] [i 1]).kind := by decide
+-- eq_dict_iff on a dict subclass holding NaN and an array, items reordered
+example : eq (.dict 1 [("b", nan), ("a", .arr [2] [i 1, nan])]) (.dict 1 [("a", .arr [2] [f 4, nan]), ("b", nan)]) = true := by decide
+-- `Same` is inhabited on non-trivial values (through eq_iff_same) and refuted on others
+example : Same (.dict 1 [("b", nan), ("a", .series [.nan, .int 1] [i 1, nan])]) (.dict 1 [("a", .series [.nan, .flt 4] [f 4, nan]), ("b", nan)]) :=
+  (eq_iff_same _ _ (by decide) (by decide)).1 (by decide)
+example : ¬ Same (.arr [2, 1] [i 1, i 2]) (.arr [1, 2] [i 1, i 2]) :=
+  fun h => absurd ((eq_iff_same _ _ (by decide) (by decide)).2 h) (by decide)
 -- shapes matter although the cells agree
 example : eq (.arr [2, 1] [i 1, i 2]) (.arr [1, 2] [i 1, i 2]) = false := by decide
 example : eq (.series [.int 0, .int 1] [i 1, i 2]) (.series [.int 1, .int 2] [i 1, i 2]) = false := by decide
@@ -171,7 +205,8 @@ private def d1 : EVal := .dict 0 [("b", .list [i 1, .dict 0 [("y", f 8), ("x", .
 private def d2 : EVal := .dict 0 [("a", .tuple []), ("b", .list [f 4, .dict 0 [("x", .date 3), ("y", i 2)]])]
 example : d1.plain = true ∧ d2.plain = true ∧ d1.keysOk = true ∧ d2.keysOk = true := by decide
 example : eq d1 d2 = true ∧ pyEqV d1 d2 = true := by decide
--- a NaN label breaks reflexivity (in the model as in pandas): the hypothesis of eq_refl is needed
-example : eq (.series [.nan] [i 1]) (.series [.nan] [i 1]) = false := by decide
+-- NaN labels are labels like any other; a string label is not the datetime it spells
+example : eq (.series [.nan] [i 1]) (.series [.nan] [i 1]) = true := by decide
+example : eq (.series [.str "2020-01-01"] [i 1]) (.series [.dt 63713433600000000] [i 1]) = false := by decide
 
 end Pyg.Props.C14
